@@ -193,7 +193,8 @@ func byteTargets(f fkey) []byteTarget {
 		{"cwt.Validator_ValidateMap", func(b []byte) {
 			var m cwt.ClaimsMap
 			if key.UnmarshalCBOR(b, &m) == nil {
-				for _, o := range []cwt.ValidatorOpts{{ExpectedIssuer: "iss"}, {}, {AllowMissingExpiration: true}, {AllowMissingExpiration: true, ClockSkew: time.Second}} {
+				for _, o := range []cwt.ValidatorOpts{{ExpectedIssuer: "iss"}, {}, {AllowMissingExpiration: true}, {AllowMissingExpiration: true, ClockSkew: time.Second},
+					{ExpectedIssuer: "iss", ExpectedAudience: "aud"}, {ExpectedAudience: "aud", AllowMissingExpiration: true, ExpectIssuedInThePast: true}, {ExpectedIssuer: "iss", AllowMissingExpiration: true, ExpectIssuedInThePast: true, ClockSkew: -time.Second}} {
 					o := o
 					if v, err := cwt.NewValidator(&o); err == nil {
 						v.ValidateMap(m)
@@ -504,6 +505,22 @@ func streamNoPanic(c *ctx) {
 		"a104f97e00", "a105f97e00", "a106f97e00", "a104fb7ff8000000000000", "a204f97c00051a00010000", "a104f9fc00", "a105fa7fc00000", "a106fb7ff0000000000000", "a104f98000", "a104fb7e37e43c8800759c",
 		"a304f97e0005f97e0006f97e00", "a2041a7fffffff05f97e00", "a2041a7fffffff06fb7ff8000000000000", "a101f97e00", "a104c249010000000000000000", "a105c349010000000000000000", "8440a0f6" + "5a00ffffff", "8440a0f6" + "5affffffff00"} {
 		inputs = append(inputs, key.HexBytesify(h))
+	}
+	// claim sets in which one claim (iss, sub, aud, exp, nbf, iat, cti) holds a value of every kind: arrays whose members
+	// are null / integers / byte strings / maps / arrays before or after a text member, maps, tags, booleans ...; the
+	// other claims valid, so that the validators reach the claim
+	for _, lab := range []string{"01", "02", "03", "04", "05", "06", "07"} {
+		for _, v := range []string{"80", "81f6", "82f663617564", "826361756401", "8163617564", "82016369737383", "8140", "81a0", "8180", "82a0636973", "a0", "a10101", "f6", "f5", "40", "4101", "00", "20", "c101", "c074323032302d30312d30315430303a30303a30305a", "d8184101", "6369737363617564", "fb3ff8000000000000"} {
+			rest := ""
+			n := 1
+			for _, o := range [][2]string{{"01", "63697373"}, {"03", "63617564"}, {"04", "1b00000004a817c800"}} {
+				if o[0] != lab {
+					rest += o[0] + o[1]
+					n++
+				}
+			}
+			inputs = append(inputs, key.HexBytesify(fmt.Sprintf("a%d", n)+lab+v+rest), key.HexBytesify("a1"+lab+v))
+		}
 	}
 	// nested map values whose keys are anything CBOR allows (null, booleans, byte strings, floats, bignums, tagged and
 	// huge integers), under every label an accessor might be asked for, bare and inside the buckets of a message
